@@ -140,6 +140,13 @@ class C13Executor(SymListMixin, ET.ETreeMixin, Executor):
         return super().compare(st, op, a, b, node)
 
     # ---- collections.deque used as a work list: a list with popleft() / appendleft()
+    def b_collection(self, st, name, args, node):
+        # list(<element of symbolic shape>): its children in document order, as a list of symbolic length
+        if name == "list" and len(args) == 1 and isinstance(args[0], VExt) and args[0].sort == "Elem" and ET.node_of(args[0]) is None:
+            st.assume(ET.NCH(args[0].t) >= 0)
+            return [(st, VRef(st.alloc(HeapObj("slist", VSeq(ET.NCH(args[0].t), lambda i, e=args[0].t: ET.elem(ET.CH(e, i)), "Elem")), self.refs)))]
+        return super().b_collection(st, name, args, node)
+
     def call(self, st, f, args, kwargs, node):
         if isinstance(f, VFunc) and f.how == "ext" and f.a == "collections.deque" and len(args) <= 1 and not kwargs:
             items = self.concrete_items(st, args[0]) if args else []
@@ -792,6 +799,92 @@ def pptx_contracts(reg):
         note="symbolic tree shape: every number of rows, every (ragged) number of cells per row")]
 
 
+# ============================================================ DOCX rows / cells (symbolic shape) ==
+DOCX = "sharepoint2text/parsing/extractors/ms_modern/docx_extractor.py"
+CP_N = z3.Function("docx_cell_paragraphs_n", ET.ELEM, I)            # paragraphs of a cell outside tables nested in it (document order)
+CP_AT = z3.Function("docx_cell_paragraph_at", ET.ELEM, I, ET.ELEM)
+
+
+def docx_contracts(reg):
+    """`_extract_tables_from_context` on a body of SYMBOLIC shape: every table that the two outer loops reach gets the grid of its direct
+    w:tr / w:tc children (any number of rows, ragged rows), and a cell holds EVERY paragraph that `_iter_cell_paragraphs(tc)` yields,
+    each exactly once, in order, joined by a newline (no paragraph filtered, whatever its children are).  `_iter_cell_paragraphs` is
+    ASSUMED here to yield the cell's paragraphs outside nested tables (CP_N / CP_AT); the generator itself, the order of the tables and
+    the nesting are covered by the bounded walker `w_docx`.  The two outer loops carry the invariant len(tables) == len(anchors)."""
+    from contracts import C13_bounded as Bm
+    m = loader.module(DOCX)
+    fq = "_extract_tables_from_context"
+    if fq not in m.functions:
+        return []
+    TR, TC = z3.StringVal(Bm.DOCX_TAGS["row"]), z3.StringVal(Bm.DOCX_TAGS["cell"])      # w:tr / w:tc of the statement (not read from the code)
+    Bm.install_str_models(reg)
+    reg.add(Bm.assumed_text(DOCX, "_collect_text_from_element"))
+
+    def cp_ret(c):
+        e = c.args["element"]
+        if not isinstance(e, VExt):
+            from pyvc.symex import Unsupported
+            raise Unsupported("_iter_cell_paragraphs on a value that is not an element of the symbolic tree")
+        return VSeq(CP_N(e.t), lambda k, e=e.t: ET.elem(CP_AT(e, k)), "Elem")
+    reg.add(FnContract(target=f"{DOCX}::_iter_cell_paragraphs", params=[("element", p_unk())], assumed=True,
+                       returns=cp_ret,
+                       note="the w:p descendants of the cell that are not inside a nested table, in document order (bounded: w_docx)"))
+
+    def cell_text(tc):
+        return JOIN(NLS, VSeq(CP_N(tc), lambda k, tc=tc: VStr(Bm.PTEXT(CP_AT(tc, k))), "str"))
+
+    def row_spec(tr):
+        return VSeq(ET.FA_N(tr, TC), lambda j, tr=tr: VStr(cell_text(ET.FA_AT(tr, TC, j))), "str")
+
+    def grid(tbl):
+        return VSeq(ET.FA_N(tbl, TR), lambda i, tbl=tbl: row_spec(ET.FA_AT(tbl, TR, i)), "row")
+
+    # loop structure read from the AST: the two outer loops (blocks of the body, tables below a block) append to the two result lists;
+    # the rows / cells loops may have become comprehensions or moved into helpers (then the symbolic lists carry them, no invariant needed)
+    fnode = m.functions[fq]
+    fors = sorted([n for n in ast.walk(fnode) if isinstance(n, (ast.For, ast.While))], key=lambda n: (n.lineno, n.col_offset))
+    lv = loop_vars(DOCX, fq)
+    if len(lv) not in (2, 4) or len(fors) != len(lv) or (len(lv) == 4 and not all(d["built"] and d["iter_base"] for d in lv[2:])):
+        return []                      # another loop structure: the bounded walker stays the only defence (nothing is claimed here)
+    appended = [st_.value.func.value.id for st_ in fors[1].body if isinstance(st_, ast.Expr) and isinstance(st_.value, ast.Call)
+                and isinstance(st_.value.func, ast.Attribute) and st_.value.func.attr == "append" and isinstance(st_.value.func.value, ast.Name)]
+    if len(appended) != 2 or len(set(appended)) != 2:
+        return []
+    tabs, anch = appended
+    rows, cells = (lv[2], lv[3]) if len(lv) == 4 else (None, None)
+
+    def inv_len(lc):
+        a, b = lc.ex.as_seq(lc.st, lc[tabs]), lc.ex.as_seq(lc.st, lc[anch])
+        return z3.BoolVal(False) if a is None or b is None else a.length == b.length
+
+    def inv_rows(lc):
+        return z3.And(seq_eq(lc.ex.as_seq(lc.st, lc[rows["built"]]), take(grid(lc[rows["iter_base"]].t), lc.i)), inv_len(lc))
+
+    def inv_cells(lc):
+        return z3.And(seq_eq(lc.ex.as_seq(lc.st, lc[cells["built"]]), take(row_spec(lc[cells["iter_base"]].t), lc.i)), inv_len(lc))
+
+    def post(c):
+        r = c.result
+        if not isinstance(r, VTuple) or len(r.items) != 2:
+            return z3.BoolVal(False)
+        a, b = c.ex.as_seq(c.st, r.items[0]), c.ex.as_seq(c.st, r.items[1])
+        return z3.BoolVal(False) if a is None or b is None else a.length == b.length
+
+    GRID3, INTS = ("list", ("list", ("list", "str"))), ("list", "int")
+    loops = {0: LoopSpec(inv=inv_len, havoc=((tabs, GRID3), (anch, INTS)), label="blocks"),
+             1: LoopSpec(inv=inv_len, havoc=((tabs, GRID3), (anch, INTS)), label="tables")}
+    if rows is not None:
+        loops[2] = LoopSpec(inv=inv_rows, havoc=((rows["built"], ("list", ("list", "str"))),), label="rows")
+        loops[3] = LoopSpec(inv=inv_cells, havoc=((cells["built"], ("list", "str")),), label="cells")
+    return [FnContract(
+        target=f"{DOCX}::{fq}", params=[("ctx", p_obj("_DocxContext", {"document_body": p_ext("Elem")}))],
+        ensures=[("one-anchor-per-table", post)], raises=[], loops=loops,
+        note="symbolic tree shape: every number of rows and (ragged) cells; a cell = all its own paragraphs joined by a newline")]
+
+
+NLS = z3.StringVal("\n")
+
+
 # =============================================================== RTF row matching ==
 RTF = "sharepoint2text/parsing/extractors/ms_legacy/rtf_extractor.py"
 REGEX, MATCH = ext_sort("Regex"), ext_sort("Match")
@@ -1101,7 +1194,9 @@ def _rtf_contracts(reg):
 # ============================================================ ODS typed cell values ==
 ODSX = "sharepoint2text/parsing/extractors/open_office/ods_extractor.py"
 ODS_OFFICE = "{urn:oasis:names:tc:opendocument:xmlns:office:1.0}"
-ODS_NUM_LITERALS = ("3", "2.5", "0", "-4.0", "1250.75", "0.5")
+# the lexical space of xsd:double (ODF office:value): optional sign, digits with or without a fraction point, optional exponent
+# (LibreOffice writes large / small magnitudes as 1E+020, 5E-05); one literal per combination of {sign, point, exponent, integral}
+ODS_NUM_LITERALS = ("3", "2.5", "0", "-4.0", "1250.75", "0.5", "1E+020", "5E-05", "1e3", "-25E-2", "1.5E+3", "2.5e-1", "+7", "12.")
 ODS_CELLS = {}       # term id of the cell -> (kind, value V)
 
 
@@ -1150,6 +1245,13 @@ def ods_value_contracts(reg):
                        note="date / time -> the stored ISO text unchanged; boolean -> bool; numbers -> int when integral else float")]
 
 
+def _guarded(f, reg):
+    try:
+        return f(reg)
+    except Exception:  # noqa  (a contract that cannot be set up claims nothing; the bounded walkers stay)
+        return []
+
+
 def contracts(reg):
     from contracts.symlist import register_over
     register_over()
@@ -1158,6 +1260,7 @@ def contracts(reg):
     out += dim_contracts(reg)
     out += value_contracts(reg)
     out += pptx_contracts(reg)
+    out += _guarded(docx_contracts, reg)
     out += rtf_contracts(reg)
     out += ods_value_contracts(reg)
     return out
